@@ -16,7 +16,11 @@ ROOT = os.path.dirname(os.path.abspath(__file__))
 sys.path.insert(0, ROOT)
 from propcfg import PROPS, COMPONENTS  # noqa: E402
 
-BUILD = os.path.join(ROOT, 'build')
+# The registered checks always build /repo into /verif/build.  Studies of seeded changes may point the same machinery
+# at a scratch worktree (VERIF_REPO, a path ending in /repo) with its own build directory (VERIF_BUILD) so that several
+# can run side by side without touching /repo.
+REPO = os.environ.get('VERIF_REPO') or '/repo'
+BUILD = os.environ.get('VERIF_BUILD') or os.path.join(ROOT, 'build')
 # evidence/ and replays/ normally live in /verif; runs against a deliberately broken tree (seeded changes)
 # set VERIF_OUT_DIR so that they do not overwrite the committed files.
 OUT = os.environ.get('VERIF_OUT_DIR') or ROOT
@@ -30,7 +34,7 @@ def log(*a):
 # --------------------------------------------------------------------------- build
 def build(engine):
     t0 = time.time()
-    r = subprocess.run(['make', '-C', ROOT, '-j16', engine], stdout=subprocess.PIPE, stderr=subprocess.STDOUT, text=True)
+    r = subprocess.run(['make', '-C', ROOT, '-j' + os.environ.get('VERIF_MAKE_J', '16'), 'REPO=' + REPO, 'B=' + BUILD, engine], stdout=subprocess.PIPE, stderr=subprocess.STDOUT, text=True)
     if r.returncode != 0:
         log('BUILD FAILED for engine', engine)
         log(r.stdout[-6000:])
@@ -105,7 +109,7 @@ def crash_sig(prop, rc, santxt):
     for fm in re.finditer(r'#\d+ 0x[0-9a-f]+ in ([^\n]*)', santxt):
         f = fm.group(1)
         if '/repo/' in f:
-            frame = re.sub(r'\(.*?\)', '', f.split(' /repo/')[0]).strip()[:80] + '@' + f.split('/repo/')[-1].split(':')[0]
+            frame = re.sub(r'\(.*?\)', '', re.split(r' \S*/repo/', f)[0]).strip()[:80] + '@' + f.split('/repo/')[-1].split(':')[0]
             break
     return '%s:CRASH:%s:%s' % (prop, kind, frame)
 
